@@ -45,9 +45,29 @@ def main(argv=None):
     s.add_argument("pids", nargs="*")
     s.add_argument("--jobs", type=int, default=16)
     s.add_argument("-v", action="store_true")
+    sub.add_parser("pin-names")
     args = ap.parse_args(argv)
     seed = int(os.environ.get("VERIF_SEED", "0") or 0)
 
+    if args.cmd == "pin-names":
+        os.environ["VERIF_NO_CANON"] = "1"
+        from .loader import Tree
+        from pathlib import Path
+
+        t = Tree()
+        table = {}
+        for f in t.nontest_funcs():
+            a = f.node.args
+            table[f.key] = [x.arg for x in a.posonlyargs + a.args + a.kwonlyargs]
+        out = Path(__file__).resolve().parent.parent / "spec" / "param_names.json"
+        out.write_text(json.dumps(table, indent=0, sort_keys=True))
+        from .loader import local_bindings
+
+        ltable = {f.key: local_bindings(f.node) for f in t.nontest_funcs()}
+        ltable = {k: v for k, v in ltable.items() if v}
+        out.with_name("local_names.json").write_text(json.dumps(ltable, sort_keys=True))
+        print(f"pinned parameter names of {len(table)} functions")
+        return 0
     if args.cmd == "check":
         _, code = run_check(args.pid.upper(), args.tier, seed, only=args.rule, write=not args.no_write)
         if code == 0 and args.tier == "thorough":
